@@ -281,7 +281,7 @@ func checkC17(p *Prog, res *Result, tier string) {
 	timeoutF := p.structField("pkg/backend/scanner", "workerConfig", "timeoutRevision")
 	for i, d := range dels {
 		construct := fmt.Sprintf("%s: age guard of expiry delete #%d", funcName(expiry), i+1)
-		good := false
+		good, pinned := false, false
 		for _, cf := range d.ch.facts() {
 			if cf.X == nil {
 				continue
@@ -294,14 +294,37 @@ func checkC17(p *Prog, res *Result, tier string) {
 				fa, ok := ld.X.(*ssa.FieldAddr)
 				return ok && fieldOf(fa) == timeoutF
 			}
+			// the compared revision is a free quantity on that path: a branch condition that fixes it to a constant
+			// (if revision == 0 { .. if revision <= timeout ..) makes the guard a constant
+			pinnedBy := func(v ssa.Value, level int) bool {
+				for _, c2 := range d.ch.facts() {
+					if c2.X == nil || c2.level != level || resolve(c2.X) != resolve(v) {
+						continue
+					}
+					if _, isConst := resolve(c2.Y).(*ssa.Const); isConst && ((c2.Op == token.EQL && c2.Want) || (c2.Op == token.NEQ && !c2.Want)) {
+						return true
+					}
+				}
+				return false
+			}
 			if isTO(cf.Y) && !isZeroConst(cf.X) && ((cf.Op == token.LEQ && cf.Want) || (cf.Op == token.GTR && !cf.Want) || (cf.Op == token.LSS && cf.Want)) {
-				good = true
+				if pinnedBy(cf.X, cf.level) {
+					pinned = true
+				} else {
+					good = true
+				}
 			}
 			if isTO(cf.X) && ((cf.Op == token.GEQ && cf.Want) || (cf.Op == token.LSS && !cf.Want) || (cf.Op == token.GTR && cf.Want)) {
-				good = true
+				if pinnedBy(cf.Y, cf.level) {
+					pinned = true
+				} else {
+					good = true
+				}
 			}
 		}
-		if good {
+		if pinned && !good {
+			res.bad("C17-R2", construct, p.pos(d.call.Pos()), "the age guard compares a value that the enclosing branch has fixed to a constant (the decoded revision of an index record is 0) with the timeout revision, so it holds for every record: events younger than the TTL lose their index record")
+		} else if good {
 			res.ok("C17-R2", construct, p.pos(d.call.Pos()), "guarded by revision <= timeoutRevision")
 		} else {
 			res.bad("C17-R2", construct, p.pos(d.call.Pos()), "an event record is removed without the guard revision <= timeoutRevision: events younger than the TTL can be expired")
